@@ -35,6 +35,16 @@ pub fn gen_scenario(r: &mut Rng, big: bool) -> Scenario {
         args.push("-d".into());
         args.push(r.range(1, 5).to_string());
     }
+    // a thread or two waiting with an unusual stack pointer: null (a sandbox helper: skipped by design),
+    // all-ones, tiny, unmapped, the last page of the address space
+    if nblock >= 2 && r.chance(1, 3) {
+        for _ in 0..r.range(1, 2) {
+            let k = r.range(1, nblock as u64);
+            let v = *r.pick(&[0u64, u64::MAX, u64::MAX, 1, 8, 0x1000, 0x7fff_ffff_e008, u64::MAX - 7, u64::MAX & !0xfff, 0x8000_0000_0000_0000]);
+            args.push("-w".into());
+            args.push(format!("{}:{}", k, v));
+        }
+    }
     Scenario { args, nblock }
 }
 
@@ -51,8 +61,8 @@ pub fn gen_cfg(r: &mut Rng, t: &Target) -> DumpCfg {
         // instruction pointer: in code / unmapped ; stack pointer: the thread's own / another's / unmapped / top of address space
         let rip_real = t.read_u64(bt.regs_addr + 88);
         let rsp_real = t.read_u64(bt.regs_addr + 80);
-        c.gregs[libc::REG_RIP as usize] = *r.pick(&[rip_real, rip_real, rip_real + 37, 0x10, u64::MAX - 3]) as i64;
-        c.gregs[libc::REG_RSP as usize] = *r.pick(&[rsp_real, rsp_real, rsp_real + 64, 0x1000, u64::MAX - 15]) as i64;
+        c.gregs[libc::REG_RIP as usize] = *r.pick(&[rip_real, rip_real, rip_real.wrapping_add(37), 0x10, u64::MAX - 3]) as i64;
+        c.gregs[libc::REG_RSP as usize] = *r.pick(&[rsp_real, rsp_real, rsp_real.wrapping_add(64), 0x1000, u64::MAX - 15]) as i64;
         cfg.crash = Some(c);
     }
     // the blamed thread may be absent (a tid that is not a thread of the target)
@@ -94,6 +104,23 @@ pub fn gen_cfg(r: &mut Rng, t: &Target) -> DumpCfg {
     if dso["n"].as_u64().unwrap_or(0) > 0 && r.chance(3, 4) {
         cfg.direct_auxv = Some((dso["phnum"].as_u64().unwrap(), dso["phdr"].as_u64().unwrap(), 0, 0));
     }
+    // caller-supplied values that say nothing about the program headers (the kernel's lead to the real
+    // linker list), or that are complete (the kernel's are not consulted)
+    match r.below(8) {
+        0 => {
+            let (n, p) = cfg.direct_auxv.map(|x| (x.0, x.1)).unwrap_or((0, 0));
+            cfg.direct_auxv = Some((n, p, 0x7fff_0000_1000, 0));
+        }
+        1 => {
+            let (n, p) = cfg.direct_auxv.map(|x| (x.0, x.1)).unwrap_or((0, 0));
+            cfg.direct_auxv = Some((n, p, 0, 0x40_1000));
+        }
+        2 => {
+            let (n, p) = cfg.direct_auxv.map(|x| (x.0, x.1)).unwrap_or((0, 0));
+            cfg.direct_auxv = Some((n, p, 0x7fff_0000_1000, 0x40_1000));
+        }
+        _ => {}
+    }
     cfg
 }
 
@@ -129,6 +156,13 @@ pub fn generate(prop: &str, seed: u64, tier: &str, out: &mut dyn std::io::Write)
             } else {
                 String::new()
             };
+            // the linker list the dynamic loader really built for the target, as the target itself sees it
+            let rd = &t.desc["real_dso"];
+            let rmaps: Vec<String> = rd["maps"].as_array().unwrap().iter().map(|m| {
+                format!("{}.{}.{}", m["l_addr"].as_u64().unwrap(), m["l_ld"].as_u64().unwrap(), m["name_hex"].as_str().unwrap())
+            }).collect();
+            let dso_field = format!("{} rdso={}:{}.{}.{}:{}", dso_field, rd["dyn"].as_u64().unwrap(), rd["version"].as_u64().unwrap(),
+                rd["brk"].as_u64().unwrap(), rd["ldbase"].as_u64().unwrap(), rmaps.join(";"));
             let o = dump_case(prop, &format!("t{}-{}-{}", seed, i, k), &t, &cfg, &mut dest, &format!("args={}{}", sc.args.join(","), dso_field));
             writeln!(out, "{}{}", o.line, if tracer.is_some() { " traced=1" } else { "" }).unwrap();
             if let Some(mut c) = tracer {
